@@ -311,6 +311,9 @@ func (sc *scen) harness(props map[string]bool, out *[]violation) func() *sched.H
 						var c context.CancelFunc
 						ctx, c = context.WithCancel(ctx)
 						r.cancels[tn] = c
+					case "patient":
+						// no deadline, never cancelled; the scripted service answers requests made under it
+						ctx = context.WithValue(ctx, PatientKey{}, true)
 					}
 					x.Go(tn, func() {
 						defer x.ReportPanic()
@@ -902,7 +905,7 @@ func (sc *scen) backwards() bool {
 }
 
 // noDeadline: a context without a deadline (plain, or cancellable by an event) gets the five-minute safety limit.
-func noDeadline(kind string) bool { return kind == "" || kind == "cancel" }
+func noDeadline(kind string) bool { return kind == "" || kind == "cancel" || kind == "patient" }
 
 func keys(m map[string]bool) []string {
 	var out []string
